@@ -113,6 +113,11 @@ pub async fn spawn_process<P: Process>(
             }
         };
 
+        // Close the mailbox before telling anyone: senders blocked on a full mailbox of a
+        // process that is going away must be released, otherwise two linked processes that
+        // terminate with full mailboxes wait for each other's exit signal forever.
+        drop(mailbox);
+
         process.terminate().await;
 
         if let Err(e) = propagate_exit_signals(&handle_clone, &registry, exit_reason).await {
